@@ -265,6 +265,7 @@ class Sim:
         self.runner = web.AppRunner(app, access_log=None, handler_cancellation=bool(cfg.get("hcancel")),
                                     keepalive_timeout=cfg.get("keepalive_ms", 75000) / float(UPS),
                                     lingering_time=cfg.get("linger_ms", 10000) / float(UPS),
+                                    shutdown_timeout=cfg.get("shutdown_ms", 61440) / float(UPS),
                                     **({"read_bufsize": int(cfg["read_bufsize"])} if cfg.get("read_bufsize") else {}))
         self.loop.run_until_complete(self.runner.setup())
         asyncio.events._set_running_loop(self.loop)
@@ -274,6 +275,7 @@ class Sim:
         self.tr = MemTransport(self.loop, self.proto, can_pause=not cfg.get("no_pause"))
         self.proto.connection_made(self.tr)
         self.start_task = self.proto._task_handler
+        self.cleanup_task = None
         self._wrap_parser()
         self._web = web_
 
@@ -403,6 +405,12 @@ class Sim:
         except BaseException as e:  # noqa
             self.escaped.append(type(e).__name__)
 
+    def app_shutdown(self):
+        """the application shuts down (`runner.cleanup()`: pre_shutdown, Server.shutdown(shutdown_timeout)) while this
+        connection exists; the coroutine runs on the stepped loop like everything else"""
+        if self.cleanup_task is None:
+            self.cleanup_task = self.loop.create_task(self.runner.cleanup())
+
     def tick(self):
         self.loop.iterate()
 
@@ -447,7 +455,8 @@ class Sim:
         self.loop._thread_id = None
         asyncio.events._set_running_loop(None)
         try:
-            self.loop.run_until_complete(self.runner.cleanup())
+            if self.cleanup_task is None or not self.cleanup_task.done() or self.cleanup_task.cancelled():
+                self.loop.run_until_complete(self.runner.cleanup())
         except BaseException:
             pass
         asyncio.set_event_loop(None)
